@@ -293,6 +293,36 @@ func runC02(c *explore.Ctx) {
 	termMerges(c, check)
 	againMerges(c, check)
 	large1HitMerges(c, check)
+	zooMerges(c, check)
+}
+
+// zooMerges: MERGE-ZOO - every ZOO member that is one merge of freshly built inputs (size sweeps,
+// wide field tables, extremes with a partner, three-input merges, ...) under the merge oracle.
+func zooMerges(c *explore.Ctx, check func(scope string, idx int64, r *mergeRun)) {
+	scope := "MERGE-ZOO"
+	for i, mk := range zooMakers() {
+		if mk.batches == nil || mk.form != 0 {
+			continue
+		}
+		if !c.MineIdx(scope, int64(i)) || c.Expired() {
+			continue
+		}
+		c.Eval()
+		c.Nontrivial()
+		var batches [][]model.Doc
+		for _, bf := range mk.batches {
+			batches = append(batches, bf())
+		}
+		drops := make([][]uint32, len(batches))
+		copy(drops, mk.drops)
+		r, err := manualMergeIn("zoo "+mk.name, batches, drops, mk.mode, mk.mode)
+		if err != nil {
+			c.Violate(scope, int64(i), sigOf(c.Prop, "inputs", "error: "+err.Error()), err.Error(), mk.name)
+			continue
+		}
+		r.run()
+		check(scope, int64(i), r)
+	}
 }
 
 // large1HitMerges: LARGE-1HIT - a term with n postings in one input (n around the multiples of 1024
@@ -554,9 +584,13 @@ func termMerges(c *explore.Ctx, check func(scope string, idx int64, r *mergeRun)
 
 // manualMerge builds a merge case from explicit batches.
 func manualMerge(name string, batches [][]model.Doc, drops [][]uint32, out uint32) (*mergeRun, error) {
-	r := &mergeRun{cfg: mergeCfg{Name: name, InModes: []uint32{1025}, Out: out}}
+	return manualMergeIn(name, batches, drops, 1025, out)
+}
+
+func manualMergeIn(name string, batches [][]model.Doc, drops [][]uint32, in, out uint32) (*mergeRun, error) {
+	r := &mergeRun{cfg: mergeCfg{Name: name, InModes: []uint32{in}, Out: out}}
 	for i, b := range batches {
-		seg, err := build(b, 1025)
+		seg, err := build(b, in)
 		if err != nil {
 			return nil, fmt.Errorf("build input %d: %w", i, err)
 		}
